@@ -361,7 +361,21 @@ static void history(Rng &r, size_t steps)
             case 13: s = s.substr(1); p.shadow[i] = ref::substr(p.shadow[i], 1, static_cast<size_t>(-1)); d = sfmt("s%zu = s%zu.substr(1)", i, i); vrt::count("op.self_referential"); break;
             case 14:
                 // assignment from a pointer / view into the string's own storage
-                switch (r.below(6)) {
+                switch (r.below(9)) {
+                case 6: case 7: case 8: {
+                    // ... the same through the repairing / checking modes: the source range is inside the target's own storage
+                    const size_t k = r.below(p.shadow[i].size() + 1), n = r.below(p.shadow[i].size() - k + 1);
+                    const S src = p.shadow[i].substr(k, n);
+                    const bool subst = r.chance(2, 3), view = r.chance(1, 2);
+                    const ST::utf_validation_t m = subst ? ST::substitute_invalid : ST::check_validity;
+                    d = sfmt("s%zu.set(%s into s%zu at %zu,%zu; %s)", i, view ? "view" : "pointer", i, k, n, subst ? "substitute_invalid" : "check_validity");
+                    try {
+                        if (view) s.set(s.view(k, n), m); else s.set(s.c_str() + k, n, m);
+                        if (!subst && !ref::utf8_ok(src)) p.fail("accepted-invalid-self-range", d);
+                        p.shadow[i] = subst ? ref::cleanup_utf8(src) : src;
+                    } catch (const ST::unicode_error &) { if (subst || ref::utf8_ok(src)) p.fail("unexpected-unicode_error", d); }
+                    break;
+                }
                 case 0: s.set(s); d = sfmt("s%zu.set(self)", i); break;
                 case 1: { size_t z = p.shadow[i].find('\0'); S want = z == S::npos ? p.shadow[i] : p.shadow[i].substr(0, z);
                           d = sfmt("s%zu = s%zu.c_str()", i, i);
